@@ -1,5 +1,6 @@
 import GwModel.ExecFacts
 import GwModel.Gen.Facts
+import GwModel.InsertApply
 /-! # C05 — Stitching does not depend on reply order or scheduling
 
 Machine level: for every forest, every capacity ≥ 1 and every schedule, results are merged parents-first,
@@ -50,5 +51,61 @@ def fork : Tasks := [{ parent := none, failed := false }, { parent := some 0, fa
 example : (run cfg fork (init fork) [.eff 0, .eff 0, .eff 0, .recv, .done, .eff 1, .eff 1, .eff 1, .eff 2, .eff 2, .eff 2, .recv, .done, .recv, .done, .ret]).map (·.order) = some [0, 1, 2] ∧
           (run cfg fork (init fork) [.eff 0, .eff 0, .eff 0, .recv, .done, .eff 2, .eff 2, .eff 2, .eff 1, .eff 1, .eff 1, .recv, .done, .recv, .done, .ret]).map (·.order) = some [0, 2, 1] := by
   decide
+
+/-- the accumulated response: an optional JSON value (`none` once an insertion failed) that is well-formed -/
+def Acc := { s : Option Ins.J // ∀ x, s = some x → Ins.WF x }
+
+def stitch (msg : Nat → Ins.Msg) (hval : ∀ n, Ins.WF (msg n).val) (acc : Acc) (n : Nat) : Acc :=
+  ⟨Ins.apply acc.1 (msg n).path (msg n).val, Ins.wf_apply acc.2 (hval n)⟩
+
+theorem foldl_stitch_val (msg : Nat → Ins.Msg) (hval : ∀ n, Ins.WF (msg n).val) (l : List Nat) (a : Acc) :
+    (l.foldl (stitch msg hval) a).1 = l.foldl (fun s n => Ins.apply s (msg n).path (msg n).val) a.1 := by
+  induction l generalizing a with
+  | nil => rfl
+  | cons n l ih => simp only [List.foldl_cons]; rw [ih]; rfl
+
+/-- **C05 at the JSON level.**  Step `n` delivers the message `msg n` = (insertion path, payload) — a function
+    of the services' replies alone.  If messages of steps that are not ancestor and descendant are independent
+    (`Ins.Indep`: where their paths part they touch different keys or list entries, and where they meet they
+    carry compatible values), then any two completed executions of the forest, under any schedule, stitch the
+    same response with the executor's real insertion function (`Ins.apply` = executorInsertObject, tied to
+    execute.go by the L2 correspondence). -/
+theorem stitch_independent_of_schedule (ts : Tasks) (msg : Nat → Ins.Msg)
+    (hval : ∀ n, Ins.WF (msg n).val)
+    (hroot : ∀ n, (msg n).path = [] → ∃ inc, (msg n).val = .obj inc)
+    (hind : ∀ a b, a ≠ b → ¬ Anc ts a b → ¬ Anc ts b a →
+      Ins.Indep (msg a).path (msg a).val (msg b).path (msg b).val)
+    (hwf : WF ts) {s₁ s₂ : St} (h₁ : Reach cfg ts s₁) (h₂ : Reach cfg ts s₂)
+    (r₁ : s₁.returned = true) (r₂ : s₂.returned = true) :
+    s₁.order.foldl (fun s n => Ins.apply s (msg n).path (msg n).val) (some (.obj [])) =
+      s₂.order.foldl (fun s n => Ins.apply s (msg n).path (msg n).val) (some (.obj [])) := by
+  let a0 : Acc := ⟨some (.obj []), fun x hx => by cases hx; exact Ins.wf_empty⟩
+  have comm : ∀ (s : Acc) (a b : Nat), ¬ Anc ts a b → ¬ Anc ts b a →
+      stitch msg hval (stitch msg hval s a) b = stitch msg hval (stitch msg hval s b) a := by
+    intro s a b hab hba
+    by_cases e : a = b
+    · subst e; rfl
+    · apply Subtype.ext
+      exact Ins.apply_comm s.2 (hval a) (hval b) (hroot a) (hroot b) (hind a b e hab hba)
+  have := response_independent_of_schedule (stitch msg hval) ts comm hwf h₁ h₂ r₁ r₂ a0
+  have h := congrArg Subtype.val this
+  rw [foldl_stitch_val, foldl_stitch_val] at h
+  exact h
+
+/-- non-vacuity: a root message and two children that insert at different entries of one list; the children
+    are independent and both orders stitch the same value -/
+def rootMsg : Ins.Msg := ⟨[], .obj [(0, .arr [.obj [(1, .leaf "\"u1\"")], .obj [(1, .leaf "\"u2\"")]])]⟩
+def kid1 : Ins.Msg := ⟨[⟨0, some 0⟩], .obj [(2, .leaf "\"a\"")]⟩
+def kid2 : Ins.Msg := ⟨[⟨0, some 1⟩], .obj [(2, .leaf "\"b\"")]⟩
+example : Ins.Indep kid1.path kid1.val kid2.path kid2.val := by simp [Ins.Indep, kid1, kid2]
+example :
+    Ins.apply (Ins.apply (Ins.apply (some (.obj [])) rootMsg.path rootMsg.val) kid1.path kid1.val) kid2.path kid2.val =
+    Ins.apply (Ins.apply (Ins.apply (some (.obj [])) rootMsg.path rootMsg.val) kid2.path kid2.val) kid1.path kid1.val := rfl
+/-- and why parents must come first (what the machine-level theorem guarantees): a child stitched before its
+    parent is overwritten when the parent's list has another length than the child's placeholder -/
+example :
+    Ins.apply (Ins.apply (some (.obj [])) kid1.path kid1.val) rootMsg.path rootMsg.val ≠
+    Ins.apply (Ins.apply (some (.obj [])) rootMsg.path rootMsg.val) kid1.path kid1.val := by
+  intro h; injection h with h; injection h with h; injection h with h _; injection h with _ h; injection h with h; injection h with h _; injection h with h; injection h with _ h; cases h
 
 end Props.C05
